@@ -5144,6 +5144,7 @@ class Entity(object, metaclass=EntityMeta):
             wbits = obj._wbits_
             get_val = obj._vals_.get
             objects_to_save = cache.objects_to_save
+            queued = False
             if avdict:
                 if any(attr not in obj._vals_ and attr.reverse and obj._bits_[attr] for attr in avdict):
                     obj._load_()
@@ -5163,6 +5164,7 @@ class Entity(object, metaclass=EntityMeta):
                         obj._save_pos_ = len(objects_to_save)
                         objects_to_save.append(obj)
                         cache.modified = True
+                        queued = True
 
                 if not collection_avdict:
                     if not any(attr.reverse or attr.is_part_of_unique_index for attr in avdict):
@@ -5178,7 +5180,7 @@ class Entity(object, metaclass=EntityMeta):
             def undo_func():
                 obj._status_ = status
                 obj._wbits_ = wbits
-                if status in ('loaded', 'inserted', 'updated'):
+                if queued:  # not queued when only collections were passed
                     assert objects_to_save
                     obj2 = objects_to_save.pop()
                     assert obj2 is obj and obj._save_pos_ == len(objects_to_save)
